@@ -24,13 +24,17 @@ EXTENDS History, TraceBase
 \* - a context-less class based view that keeps scratch data on itself: 32 scratch.note('a') 33 scratch.note('x')
 \* - three functions under one pydantic validator that differ only in the TYPE of a default (1, TRUE, 1.0 - equal in Python,
 \*   different in JSON), called without parameters: 34 dflt.one() 35 dflt.true() 36 dflt.float()
+\* - one method of the default validator called with arguments that are equal in Python and different in JSON:
+\*   37 typeof(1) 38 typeof(true) 39 typeof(1.0)
+\* - a function registered bare, then given a (pydantic) validator and registered AGAIN under the same name - the later
+\*   registration replaces the earlier one: 40 rereg("abc") 41 rereg(5)
 TwinOutcome == <<"int", "str", "invalid", "invalid", "int", "str", "invalid", "invalid",
                  "ok", "ok", "invalid", "invalid", "ctx", "pong", "ctx2", "invalid", "a_and_5", "a_and_ctx", "a_and_none",
                  "ok", "ok", "invalid", "int", "invalid", "int", "int",
                  "123", "ctx", "pong", "3", "-5", "noted:a", "noted:x",
-                 "int:1", "bool:True", "float:1.0">>
+                 "int:1", "bool:True", "float:1.0", "int:1", "bool:True", "float:1.0", "invalid", "ran">>
 TraceInit == tid \in 1..NTraces /\ l = 1 /\ InitWith("typed")
-TCall == IsEvent("Call") /\ E.c \in 1..36 /\ Serve(E.c) /\ E.outcome = TwinOutcome[E.c]
+TCall == IsEvent("Call") /\ E.c \in 1..41 /\ Serve(E.c) /\ E.outcome = TwinOutcome[E.c]
 TraceNext == TCall
 TraceConstraint == NothingRetained /\ Progress
 =============================================================================
